@@ -36,4 +36,10 @@ PROPS = {
                         "C07_model_traces_ok is conditional on the caller of the fs layer syncing every written file before it acknowledges (wf_ops) -- the segment writer's sync path; the fst lines check that on the real traces"],
         "rule": "6 fixed scenarios (create+first commit, rotation, head/tail truncation deleting files, close/reopen/append, reset of the empty first segment, oversized batch/truncate to empty) + seeded random WAL workloads (segment sizes 512..8192, appends, waits, truncations, close/reopen) run on the production fs.FS + BoltMetaDB under strace; fso: seeded fs-layer call sequences (create/openwriter/write/sync/close/delete/meta init/commit) compared event by event with the model's fs_trace; distinct = distinct input lines",
     },
+    "C20": {
+        "streams": [S("seqapi", 150, 3000, vm=(12, 120), vm_maxlen=6000)],
+        "trusted": [GO, "go/ast translator harness/cmd/wh/facts.go (call-site scan) and the compiled MetricDefinitions tables"],
+        "assumptions": ["segment_rotations has no specification-level total (it is compared with the model only)"],
+        "rule": "seeded op sequences (stores incl. invalid shapes, deletes at all positions, reads, stable ops, reopen) over 7 segment sizes, on crashfs and on the real fs+BoltDB; metrics summary compared with the model after every M op and with independently computed true totals; distinct = distinct input lines",
+    },
 }
